@@ -933,14 +933,15 @@ func (t *tScreen) drawCell(x, y int) int {
 	buf := make([]byte, 0, 6)
 
 	buf = t.encodeRune(mainc, buf)
+	// No FullWidth character support: the substitute is narrow
+	nofull := width > 1 && string(buf) == "?"
 	for _, r := range combc {
 		buf = t.encodeRune(r, buf)
 	}
 
 	str = string(buf)
-	if width > 1 && str == "?" {
-		// No FullWidth character support
-		str = "? "
+	if nofull {
+		str += " "
 		t.cx = -1
 	}
 
